@@ -317,7 +317,8 @@ Lemma stitch_flush h pd c l :
   chain h pd 0 c l ->
   exists h' off, stitch h pd c l 0 = Ok (h', off) /\ take l (block h' c) = stitched h pd 0 c l /\
     (forall j, j <> c -> block h' j = block h j) /\ length h' = length h /\
-    len (block h' c) = len (block h c).
+    len (block h' c) = len (block h c) /\
+    block h' c = stitched h pd 0 c l ++ drop l (block h c).
 Proof.
   intros Hc. destruct (stitch_ok pd h 0 c l Hc) as (h' & off & E & Eb & Eo & En).
   assert (E0 : len (stitched h pd 0 c l) = l) by (rewrite (stitched_len _ _ _ _ _ Hc); lia).
@@ -327,4 +328,25 @@ Proof.
     transitivity (take (len S) (S ++ drop l (block h c))); [now rewrite E0 | apply take_app_len].
   - rewrite Eb. rewrite take_0. cbn [app]. rewrite len_app, E0, len_drop.
     destruct (chain_cur _ _ _ _ _ Hc). lia.
+Qed.
+
+(* the Flush loop does not change the logical string (needed when the sink then fails and the
+   buffers stay) *)
+Lemma stitched_after h h' pd : forall from c l P D,
+  chain h pd from c l ->
+  (forall j, j <> c -> block h' j = block h j) ->
+  block h' c = P ++ stitched h pd from c l ++ D -> len P = from ->
+  stitched h' pd from c l = stitched h pd from c l.
+Proof.
+  induction pd as [|[b lb] rest IH]; intros from c l P D Hc Ho Eb HP; cbn [stitched chain] in *.
+  - destruct Hc as (H1 & H2 & _).
+    set (S := take (l - from) (drop from (block h c))) in *.
+    assert (HS : len S = l - from) by (unfold S; rewrite len_take, len_drop; lia).
+    rewrite Eb. rewrite (drop_app_ge P) by lia. replace (from - len P) with 0 by lia. rewrite drop_0.
+    transitivity (take (len S) (S ++ D)); [now rewrite HS | apply take_app_len].
+  - destruct Hc as (H1 & H2 & H3 & H4 & H5 & H6).
+    rewrite (Ho b) by assumption. f_equal.
+    apply (IH lb c l (P ++ take (lb - from) (drop from (block h b))) D H6 Ho).
+    + rewrite Eb. now rewrite <- !app_assoc.
+    + rewrite len_app, len_take, len_drop. lia.
 Qed.
